@@ -760,14 +760,10 @@ const PAGE_SIZES: [usize; 4] = [4096, 8192, 16384, 65536];
 const CACHES: [usize; 3] = [64, 512, 10000];
 
 fn gen_cfg(rng: &mut Rng) -> String {
-    format!(
-        "{} {} {} {} {}",
-        rng.pick(&PAGE_SIZES),
-        rng.pick(&CACHES),
-        rng.range(1, 4),
-        rng.range(3, 5),
-        rng.range(1, 3)
-    )
+    let ps = *rng.pick(&PAGE_SIZES);
+    // 4 KiB pages with a minimum key count of 4 or 5 are the region of the catalog-overflow finding (cfg/C09.py): kept rarer
+    let mk = if ps == 4096 && rng.chance(2, 3) { 3 } else { rng.range(3, 5) };
+    format!("{} {} {} {} {}", ps, rng.pick(&CACHES), rng.range(1, 4), mk, rng.range(1, 3))
 }
 
 impl<'a> Gen<'a> {
@@ -1225,9 +1221,9 @@ fn gen_history(rng: &mut Rng, fam: Fam, big: bool, n_reopen: usize, seg_len: usi
     if tags.iter().any(|t| t == "bigrows") {
         tags.push("kf:bigrows".into());
     }
-    // small pages, high minimum key count (= small inline limit, so catalog rows spill early) and pages freed by DROP TABLE:
-    // the conditions under which the B+tree's aliased overflow chains have been seen to bite the catalog (cfg/C09.py)
-    if hw[0] == "4096" && hw[3] != "3" && tags.iter().any(|t| t == "drop_table") && !tags.iter().any(|t| t.starts_with("kf:")) {
+    // small pages and a high minimum key count (= small inline limit, so catalog rows spill early): the conditions under
+    // which the B+tree's aliased overflow chains have been seen to bite the catalog (cfg/C09.py)
+    if hw[0] == "4096" && hw[3] != "3" && !tags.iter().any(|t| t.starts_with("kf:")) {
         tags.push("kf:overflow_alias".into());
     }
     if !tags.iter().any(|t| t.starts_with("kf:")) {
@@ -1256,32 +1252,80 @@ fn gen_many_inserts(rng: &mut Rng) -> Case {
     Case { line: format!("reopen {} | {}", gen_cfg(rng), ops.join(" ; ")), tags: vec!["inserts>255".into(), "nt".into(), "clean".into()] }
 }
 
-/// more transactions than the aborted bitmap of page zero has bits, with a rollback among the late ones
+/// more transactions than the aborted bitmap of page zero has bits, with rollbacks at ids of every magnitude
+/// (≈ 5, 600, 2 600, 5 600, just below and above 8 192)
 pub fn gen_many_txns(rng: &mut Rng) -> Case {
-    let early = rng.range(2, 5);
-    let ops: Vec<String> = vec![
-        "create t(k:big,v:int)".into(),
-        "db ins t 1 10".into(),
-        "s1 begin".into(),
-        "s1 ins t 2 20".into(),
-        "s1 rollback".into(),
-        format!("burn {}", 8192 + rng.range(0, 40) - early),
-        "tid".into(),
-        "s1 begin".into(),
-        "s1 ins t 3 30".into(),
-        "s1 del t where k eq 1".into(),
-        "s1 rollback".into(),
-        "db ins t 4 40".into(),
-        "db sel t".into(),
-        format!("reopen {} {}", rng.pick(&["drop", "flush"]), gen_cfg(rng)),
-        "db sel t".into(),
-        "tid".into(),
-        "db ins t 5 50".into(),
-    ];
+    let mut ops: Vec<String> = vec!["create t(k:big,v:int)".into(), "db ins t 1 10".into()];
+    let mut key = 1;
+    let mut used: i64 = 2; // transaction ids handed out so far
+    let mut rollback = |ops: &mut Vec<String>, used: &mut i64| {
+        key += 1;
+        ops.push("s1 begin".into());
+        ops.push(format!("s1 ins t {} {}", key, key * 10));
+        ops.push("s1 rollback".into());
+        key += 1;
+        ops.push(format!("db ins t {} {}", key, key * 10));
+        *used += 2;
+    };
+    rollback(&mut ops, &mut used);
+    for target in [600i64, 2600, 5600, 8150] {
+        let t = target + rng.range(0, 30);
+        ops.push(format!("burn {}", t - used));
+        used = t;
+        rollback(&mut ops, &mut used);
+    }
+    let t = 8192 + rng.range(0, 40);
+    ops.push(format!("burn {}", t - used));
+    ops.push("tid".into());
+    ops.push("s1 begin".into());
+    ops.push("s1 ins t 100 1000".into());
+    ops.push("s1 del t where k eq 1".into());
+    ops.push("s1 rollback".into());
+    ops.push("db ins t 101 1010".into());
+    ops.push("db sel t".into());
+    ops.push(format!("reopen {} {}", rng.pick(&["drop", "flush"]), gen_cfg(rng)));
+    ops.push("db sel t".into());
+    ops.push("tid".into());
+    ops.push("db ins t 102 1020".into());
     Case {
         line: format!("reopen {} | {}", gen_cfg(rng), ops.join(" ; ")),
         tags: vec!["txn_ids>8192".into(), "nt".into(), "kf:txn_ids>8192".into()],
     }
+}
+
+/// a run of consecutive rolled-back transactions (every residue of the id modulo the bitmap's bytes and words), each
+/// with an INSERT or a DELETE, then close and open; `start` = number of transactions burnt first (the sweep across
+/// id 8192 pins the exact size of the bitmap: ids below it must be remembered)
+fn gen_rollback_sweep(rng: &mut Rng, start: i64, n: i64) -> Case {
+    let mut ops: Vec<String> = vec!["create t(k:big,v:int)".into()];
+    let base = 20;
+    let rows: Vec<String> = (1..=base).map(|k| format!("{} {}", k, k)).collect();
+    ops.push(format!("db ins t {}", rows.join(" , ")));
+    if start > 0 {
+        ops.push(format!("burn {}", start));
+    }
+    ops.push("tid".into());
+    for i in 0..n {
+        ops.push("s1 begin".into());
+        if i % 3 == 2 {
+            ops.push(format!("s1 del t where k eq {}", 1 + (i % base)));
+        } else {
+            ops.push(format!("s1 ins t {} {}", 1000 + i, i));
+        }
+        ops.push(if i % 5 == 4 { "s1 drop".into() } else { "s1 rollback".into() });
+    }
+    ops.push("tid".into());
+    ops.push(format!("reopen {} {}", rng.pick(&["drop", "flush"]), gen_cfg(rng)));
+    ops.push("tid".into());
+    ops.push("db ins t 5000 1".into());
+    let mut tags = vec!["rollback_sweep".to_string(), "nt".into()];
+    if start + n + 4 >= 8192 {
+        tags.push("txn_ids>8192".into());
+        tags.push("kf:txn_ids>8192".into());
+    } else {
+        tags.push("clean".into());
+    }
+    Case { line: format!("reopen {} | {}", gen_cfg(rng), ops.join(" ; ")), tags }
 }
 
 impl Engine for ReopenEngine {
@@ -1289,9 +1333,9 @@ impl Engine for ReopenEngine {
         let quick = tier == Tier::Quick;
         let mut out = Vec::new();
         for i in 0..(if quick { 150 } else { 1500 }) {
-            // 10 % rolled-back UPDATEs (finding of C03/C04), 15 % big rows (B+tree finding of C10/C12), ~5 % catalog overflow risk, 70 % clean
+            // 10 % rolled-back UPDATEs (finding of C03/C04), 12 % big rows (B+tree finding of C10/C12), ~7 % catalog overflow risk, ≥ 70 % clean
             let fam = if i % 10 == 9 { Fam::RollbackUpdate } else { Fam::Clean };
-            let big = i % 10 == 3 || i % 20 == 7;
+            let big = i % 10 == 3 || i % 50 == 7;
             let n_reopen = rng.range(1, 4) as usize;
             let seg = if rng.chance(1, 5) { 16 } else { 8 };
             out.push(gen_history(rng, fam, big, n_reopen, seg));
@@ -1299,10 +1343,16 @@ impl Engine for ReopenEngine {
         for _ in 0..(if quick { 2 } else { 10 }) {
             out.push(gen_many_inserts(rng));
         }
+        for _ in 0..(if quick { 2 } else { 6 }) {
+            let start = rng.range(0, 200);
+            out.push(gen_rollback_sweep(rng, start, 140));
+        }
         if !quick {
             for _ in 0..2 {
                 out.push(gen_many_txns(rng));
             }
+            let start = 8192 - rng.range(60, 120);
+            out.push(gen_rollback_sweep(rng, start, 200));
         }
         out
     }
